@@ -225,6 +225,10 @@ def run_sequence(drv, cfg, wiring, m0, seq):
         if value == "echo":
             # a valid response equal to what the clock shows at that moment (reference and clock did not drift)
             value = (ck.cands[0][1] + (ck.m + d - ck.cands[0][0]) // 1000) if ck.cands else 100000
+        elif isinstance(value, str) and value.startswith("far"):
+            # a valid response that differs from the shown time by a multiple of 65536 s (vanishes in a 16-bit difference)
+            k_ = int(value[3:])
+            value = ((ck.cands[0][1] + (ck.m + d - ck.cands[0][0]) // 1000) if ck.cands else 100000) + 65536 * k_
         r = drv.cmd("STEP %d %d %d" % (d, 1 if ready else 0, value))
         msg = ck.step(d, ready, value, r)
         if msg:
@@ -241,6 +245,8 @@ def outcome_value(kind, m):
         return (True, 100000)
     if kind == "echo":
         return (True, "echo")
+    if kind.startswith("far"):
+        return (True, kind)
     return (True, 200000 + m // 1000 * 3)
 
 
@@ -325,11 +331,29 @@ def run(ctx):
         ctx.count("enumerated_sequences", n)
         allclasses |= classes
         fails += fl
+    # ---- fine approach to the end of the sync period after a success (first success at phase p, an 'echo' success q ms
+    # into a second, then loop() every 50 / 100 ms until well past the sync period) ----
+    fine = []
+    for cfg in ((7, 1, 100), (2, 5, 10)):
+        for wiring in (1, 2):
+            for p_ in (0, 250, 700, 999):
+                for q_ in (1, 250, 500, 750, 999):
+                    for step_ in (50, 100, 333):
+                        # send; first success; sync period passes (Ok -> Ready); send; success equal to the shown time
+                        seq = [(1 + p_, False, 0), (1, True, 100000), (cfg[0] * 1000 + q_, False, 0), (1, False, 0), (1, True, "echo")]
+                        seq += [(step_, False, 0)] * ((cfg[0] * 1000 + 1500) // step_)
+                        fine.append((cfg, wiring, seq))
+    for cfg, wiring, seq in fine:
+        v, ck = run_sequence(drv, cfg, wiring, 1000, seq)
+        ctx.evaluations += len(seq)
+        if v:
+            fails.append({"cfg": list(cfg), "wiring": wiring, "m0": 1000, "seq": seq, "violation": v})
+    ctx.count("fine_approach_sequences", len(fine))
     # ---- Hypothesis generated longer histories ----
     hstats = {"n": 0, "fail_after_success": 0, "late_ready_after_timeout": 0, "saturation": 0, "noref_reads_after_65s_of_loops": 0}
     hfails = []
 
-    step_strategy = st.tuples(st.integers(0, 8), st.sampled_from(["notready", "notready", "const", "varying", "invalid", "echo"]))
+    step_strategy = st.tuples(st.integers(0, 8), st.sampled_from(["notready", "notready", "const", "varying", "invalid", "echo", "far1", "far-2"]))
 
     @hypothesis.seed(ctx.seed)
     @settings(max_examples=4000 if thorough else 600, deadline=None, database=None, phases=[Phase.generate],
